@@ -147,3 +147,16 @@ func ZZ_C13_will(a []int) {
 	zzReach("will")
 	zzAssert(zzSharedWrites() == 0, "monitor: read-only use of a shared will message writes to shared memory")
 }
+
+// ZZ_C13_read: ReadPacket of a short frame (type nibble a[0], a[1] arbitrary
+// body bytes) while everything that existed before is shared: decoding on a
+// private stream must not write to shared or package-level memory.
+func ZZ_C13_read(a []int) {
+	n := a[1]
+	f := append([]byte{byte(a[0])<<4 | zzU8("fl")&0x0f, byte(n)}, zzBytes("b", n)...)
+	zzMarkShared()
+	_, err := ReadPacket(&zzContig{b: f})
+	zzReach("read")
+	zzEmitU("err", zzB2U(err != nil))
+	zzAssert(zzSharedWrites() == 0, "monitor: ReadPacket on a private stream writes to memory shared with other goroutines")
+}
